@@ -72,3 +72,13 @@ U("c05_ran_start_determines_state", ["C05"], "h_ran_start", ["C05/ranstart.c"], 
   bounds={"seed": "314159 (the only seed the library passes: c05_export_restarts_prng)", "prior state": "any (all statics nondet, two independent copies)"},
   functions=["ran_start", "ran_array"], callees={"all": "body"}, min_obligations=10, timeout=600, cost=60,
   assumptions=["the second copy of rng.c is the same source compiled with -D<global>=<global>_B for its nine external names"])
+
+# ---- every parse starts from a reset engine
+U("c05_parse_resets_first", ["C05", "C06"], "h_parse_resets", ["C05/parse_resets.c"], ["mmd.c"], plain=True, lib=(), kind="finite",
+  drop_bodies=["mmd_engine_reset", "mmd_tokenize_string", "mmd_parse_token_chain"],
+  pre_instrument=["--remove-function-body-regex", "^(?!mmd_engine_parse_substring$|mmd_engine_reset$|mmd_tokenize_string$|mmd_parse_token_chain$|h_parse_resets$|verif_.*$|__CPROVER.*$).*",
+                  "--generate-function-body", "^(?!__CPROVER_|malloc$|free$|verif_).*$", "--generate-function-body-options", "nondet-return"],
+  cbmc_flags=["--unwind", "3", "--unwinding-assertions", "--object-bits", "10"], checks=["--no-standard-checks"],
+  functions=["mmd_engine_parse_substring"],
+  callees={"mmd_engine_reset": "contract stub counting the call (its own contract: unit engine_reset)", "mmd_tokenize_string / mmd_parse_token_chain": "contract stubs requiring a preceding reset", "pairing passes, OPML/ITMZ import, stack_*": "body removed, nondet return value"},
+  min_obligations=3, timeout=200, cost=5, assumptions=[NOFAIL])
